@@ -1002,6 +1002,29 @@ package rewriter
 // matcher traversals: their effect on the ghost world is abstract (delayElided, etaReduced); what they replace is checked by the scans.
 //@ extern log.Printf(format, a)
 //@   ensures true
+// ---------------------------------------------------------------- rewrite.go: per-file driver of phase 1 (C11)
+//@ extern imports.ImportName(f, path, name) (n)
+//@   ensures true
+//@ extern astutil.AddNamedImport(fset, f, name, path) (added)
+//@   ensures true
+//@ -- D42: the generated code refers to seq through the compiler's own import name, whatever the file imports itself
+//@ closure rewriter.rewriteFile#0 as parseOrImport (fset, f) (coName, seqName)
+//@   assume-obligation call[assert].requires because the file was selected by imports.Uses(f, co): it imports co, so go-imports finds a name for it (dependency)
+//@   ensures[own-seq-name] seqName == importSeqName
+//@ func (r *rewriter) rewriteFile(f, printer)
+//@   trusted      -- driver of the passes over one file (astutil.Apply traversals, comment bookkeeping) ending in printer(f.Filename, f)
+//@   ensures W == printed(ptr(f), passesApplied(ptr(f), old(W)))
+//@   modifies W
+//@ -- the per-file callback of phase 1; imports.Uses is asked about the co package here (fileUsesSeq reads "uses the package asked about")
+//@ closure rewriter.rewriteAllFiles#0 as @VisitAllFiles.0 (f)
+//@   captured-inv r != nil && printer != nil && coPkg != nil
+//@   requires f != nil
+//@   ensures[co-files-rewritten] fileUsesSeq(ptr(f)) ==> W == printed(ptr(f), passesApplied(ptr(f), old(W)))
+//@   -- D43: Compile writes its output to another directory: a file of the package that does not import co (helpers, types) is not
+//@   -- emitted at all, so the generated package does not build on its own
+//@   ensures[every-file-emitted] !fileUsesSeq(ptr(f)) ==> W == printed(ptr(f), old(W))
+//@   modifies W
+
 //@ extern imports.Uses(f, pkg) (u)
 //@   ensures u == fileUsesSeq(ptr(f))
 //@ type-contract FilePrinter (filename, f)
